@@ -45,7 +45,7 @@ KINDS = ["bad_dtype", "nonstr_name", "dup_names", "null_in_required", "surrogate
          # beyond the kinds the property lists, same principle: a refused in-place update of the key/value metadata
          "kv_update_nontext",
          # ... and a valid append that is interrupted from outside (KeyboardInterrupt arriving inside an I/O call)
-         "interrupted"]
+         "interrupted", "interrupted"]
 
 
 @st.composite
@@ -289,14 +289,17 @@ def run_case(case):
                 return discard("valid append raised in the dry run:" + exc_sig(e), labels)
             evs = dfs.events
             if scheme == "simple":
-                # while the new row groups are being written; (once the new footer is complete the append has happened)
-                ks = [i for i, ev in enumerate(evs, 1) if ev[0] == "write"][:-3]
+                # any write of the append, the new footer, its length and the closing magic included: a write that does
+                # not happen leaves the append incomplete
+                ks = [i for i, ev in enumerate(evs, 1) if ev[0] == "write"]
             else:
                 meta = [i for i, ev in enumerate(evs, 1) if ev[0] == "open_w" and ev[1].endswith("_metadata")]
                 ks = list(range(1, meta[0])) if meta else []
             if not ks:
                 return discard("no interruptible call", labels)
-            k = ks[0] if case["colpos"] == "first" else ks[-1] if case["colpos"] == "last" else ks[len(ks) // 2]
+            pos = {("first", "first_rg"): 0, ("first", "later_rg"): len(ks) // 3, ("middle", "first_rg"): len(ks) // 2,
+                   ("middle", "later_rg"): -2, ("last", "first_rg"): -3, ("last", "later_rg"): -1}[(case["colpos"], case["rowpos"])]
+            k = ks[max(-len(ks), min(pos, len(ks) - 1))]
             labels.append("interrupt_at:%s" % evs[k - 1][0])
             op, how = prepare_op(case, df1, path, other)
             fs = FaultFS(fail_at=k, exc=KeyboardInterrupt)
